@@ -862,11 +862,6 @@ htp_status_t htp_connp_RES_HEADERS(htp_connp_t *connp) {
                 lfcrending = 0;
                 if (connp->out_next_byte == CR) {
                     // hanldes LF-CR sequence as end of line
-                    // (trace: the LF itself ended a CR LF whose CR arrived in an earlier chunk)
-                    if ((connp->out_current_read_offset == 1) && (connp->out_buf != NULL) && (connp->out_buf_size > 0)
-                            && (connp->out_buf[connp->out_buf_size - 1] == CR)) {
-                        HTP_VERIF_TRACE(connp, 1, (intptr_t) connp->out_tx, 0);
-                    }
                     OUT_COPY_BYTE_OR_RETURN(connp);
                     lfcrending = 1;
                 }
